@@ -70,6 +70,16 @@ pub fn check(p: &Pos, rep: &mut Report, rng: &mut StdRng) {
     if rng.gen_range(0..4) == 0 {
         line(p, rep, rng);
     }
+    // In play an en-passant target implies a half-move clock of 0, but the board takes both from
+    // a FEN, board editors write any pair, and the property ranges over position x clock value:
+    // the same position with a non-zero clock.
+    if p.ep.is_some() && p.half == 0 && rng.gen_range(0..2) == 0 {
+        let mut v = p.clone();
+        v.half = match rng.gen_range(0..3) { 0 => rng.gen_range(1..100), 1 => gen::HALF_CLOCKS[rng.gen_range(1..gen::HALF_CLOCKS.len())], _ => rng.gen_range(1..=gen::MAX_HALF_CLOCK) };
+        v.full = v.full.max(v.half / 2 + 1);
+        rep.count("ep_target_with_nonzero_clock_positions");
+        check(&v, rep, rng);
+    }
 }
 
 pub fn line(p: &Pos, rep: &mut Report, rng: &mut StdRng) {
@@ -148,7 +158,6 @@ pub fn clock_sweep(rep: &mut Report, rng: &mut StdRng, exhaustive: bool, n_seeds
         let base = &seeds[(i * 7 + 3) % seeds.len()];
         for &h in &clocks {
             let mut p = base.clone();
-            if p.ep.is_some() && h != 0 { continue; }
             p.half = h;
             p.full = p.full.max(h / 2 + 1);
             check(&p, rep, rng);
